@@ -305,6 +305,10 @@ func do(ctx context.Context, ast MalType, from, to int, env EnvType) (MalType, e
 // be modified.
 // AST usually is generated by [READ] or [READWithPreamble].
 func EVAL(ctx context.Context, ast MalType, env EnvType) (res MalType, e error) {
+	// no Go panic may escape into the embedding program: malformed special
+	// forms, parameter lists, etc. are reported as ordinary (catchable) errors
+	defer evalRecover(ast, &res, &e)
+
 	// debugger section
 	if Stepper != nil {
 		if !skip {
@@ -621,6 +625,25 @@ func first(list MalType) string {
 		return list.(List).Val[0].(Symbol).Val
 	}
 	return ""
+}
+
+func evalRecover(ast MalType, res *MalType, err *error) {
+	rerr := recover()
+	if rerr == nil {
+		return
+	}
+	*res = nil
+	var position MalType
+	switch ast.(type) {
+	case List, Symbol, Vector, HashMap, Set:
+		position = ast
+	}
+	switch rerr := rerr.(type) {
+	case error:
+		*err = lisperror.NewLispError(fmt.Errorf("malformed expression: %w", rerr), position)
+	default:
+		*err = lisperror.NewLispError(fmt.Errorf("malformed expression: %v", rerr), position)
+	}
 }
 
 func malRecover(err *error) {
